@@ -70,6 +70,7 @@ def run(R, tier, seed, driver_ok):
               'random L ∈ R^{k×d} incl. k < d and the iterates of real fits. case = (learner, data, L or options); all non-trivial')
     R.assumptions = ['SciPy L-BFGS-B is external: "never worse than x0" is checked per fit', 'finite differences with h=1e-6 (relative tolerance 1e-4)']
     lines, meta = [], []
+    clines, cmeta = [], []
     for rep in range(reps):
         d = int(rng.randint(2, 5))
         X, y = zoo.blobs(rng, d, int(rng.randint(2, 4)))
@@ -147,7 +148,7 @@ def run(R, tier, seed, driver_ok):
 
         def spy_lg(self, X_, L_, dfG, k_, reg_, tn, li):
             out = o_lg(self, X_, L_, dfG, k_, reg_, tn, li)
-            cap['calls'].append((np.array(L_, copy=True), float(out[1]), np.array(out[0], copy=True)))
+            cap['calls'].append((np.array(L_, copy=True), float(out[1]), np.array(out[0], copy=True), int(out[2])))
             return out
 
         def spy_st(self, X_, li):
@@ -187,7 +188,7 @@ def run(R, tier, seed, driver_ok):
         if any(b > a + 1e-9 * max(1.0, abs(a)) for a, b in zip(trace, trace[1:])):
             R.violation('LMNN/accepted-objective-increased', 'LMNN accepted an iterate with a larger objective', case)
         sel = cap['calls'][:2] + cap['calls'][-2:] if len(cap['calls']) > 4 else cap['calls']
-        for Lc, objc, Gc in sel:
+        for Lc, objc, Gc, nact in sel:
             c2 = dict(case, L=Lc)
             R.case(('c10', 'LMNN', X.tobytes().hex()[:32], Lc.tobytes().hex()), True, branch='LMNN:value-gradient')
             dv = doc(Lc)
@@ -201,13 +202,31 @@ def run(R, tier, seed, driver_ok):
                     R.violation('LMNN/gradient-differs-from-derivative', f'LMNN gradient differs from the derivative of the documented objective (max diff {np.abs(G - Gc).max():.3g})', c2)
             lines.append(f'lmnn_obj {Lc.shape[0]} {d} {n} {bits(Lc)} {bits(X)} {" ".join(map(str, y.tolist()))} {f2b(reg)} {kk} ' + ' '.join(map(str, targets.ravel().tolist())))
             meta.append((objc, 1e-9 * max(1.0, abs(objc)), 'lmnn_obj', c2))
+            # the code-level route (active-set count and ⟨L·G, L⟩; C10_lmnn_code_objective proves it equal to the
+            # documented objective): value and number of active constraints against what _loss_grad returned
+            EL = ((Lc.dot(X.T).T[:, None] - Lc.dot(X.T).T[None]) ** 2).sum(-1)
+            hinge = np.array([1 + EL[i, j] - EL[i, l] for i in range(n) for j in targets[i] for l in range(n) if y[l] != y[i]])
+            near_kink = bool(hinge.size and np.abs(hinge).min() < 1e-9 * max(1.0, np.abs(EL).max()))
+            clines.append(f'lmnn_code_obj {Lc.shape[0]} {d} {n} {bits(Lc)} {bits(X)} {" ".join(map(str, y.tolist()))} {f2b(reg)} {kk} ' + ' '.join(map(str, targets.ravel().tolist())))
+            cmeta.append((objc, nact, near_kink, c2))
     if driver_ok and lines:
         outs = lean_run(lines)
         for o, (val, tol, what, case) in zip(outs, meta):
             v = parse_ok_floats(o)
             if v is None or v.size != 1 or not abs(v[0] - val) <= tol:
                 R.broken(f'correspondence:C10:{what}', f'documented objective (model) {None if v is None else v[0]} vs the value that drives the optimiser {val}', case)
-        R.extra['traces_validated_against_impl'] = len(lines)
+        outs = lean_run(clines)
+        for o, (val, nact, near_kink, case) in zip(outs, cmeta):
+            tk = o.split()
+            if tk[:1] != ['ok'] or len(tk) != 3:
+                R.broken('driver:lmnn_code_obj', f'model driver answered {o[:80]}', case); continue
+            v = parse_ok_floats('ok ' + tk[1])[0]
+            if not abs(v - val) <= 1e-9 * max(1.0, abs(val)):
+                R.broken('correspondence:C10:lmnn_code_obj', f'code-level model of _loss_grad gives {v}, the implementation {val}', case)
+            elif int(tk[2]) != nact and not near_kink:
+                R.broken('correspondence:C10:lmnn_total_active', f'code-level model counts {tk[2]} active constraints, the implementation {nact}', case)
+        R.count('lmnn_code_obj_traces', len(clines))
+        R.extra['traces_validated_against_impl'] = len(lines) + len(clines)
 
 
 def replay(R, obj):
